@@ -774,6 +774,14 @@ def _is_lock_assign(st, val):
         and isinstance(st.value, ast.Constant) and st.value.value is val
 
 
+def _is_base_delegation(n):
+    """self._base_cls.<m>(self, ...) or super(...).<m>(...) (constructors excluded)"""
+    if not (isinstance(n, ast.Call) and isinstance(n.func, ast.Attribute)) or n.func.attr == "__init__":
+        return False
+    v = n.func.value
+    return pf.is_self_attr(v, "_base_cls") or (isinstance(v, ast.Call) and pf.call_name(v) == "super")
+
+
 def rule_lock(chk, uni):
     km = uni.km
     # call sites of a method name (only needed for acquire-only helpers); textual and therefore
@@ -799,7 +807,8 @@ def rule_lock(chk, uni):
                 continue  # private helper inlined into every caller: its lock statements are analysed there
             locks = [s for s in pf.walk_no_nested(fn) if _is_lock_assign(s, True)]
             unlocks = [s for s in pf.walk_no_nested(fn) if _is_lock_assign(s, False)]
-            if not locks and not (unlocks and mname != "__init__"):
+            delegations = [n for n in pf.walk_no_nested(fn) if _is_base_delegation(n)]
+            if not locks and not (unlocks and mname != "__init__") and not (delegations and mname != "__init__"):
                 continue
             g = cfgm.CFG(fn)
             where = "%s.%s" % (cname, mname)
@@ -838,13 +847,38 @@ def rule_lock(chk, uni):
                                           "L%s" % getattr(p.ast, "lineno", "?") for p in path if p.ast is not None),
                                       instance=inst)
             # delegated base calls
-            for n in pf.walk_no_nested(fn):
-                if isinstance(n, ast.Call) and isinstance(n.func, ast.Attribute) and pf.is_self_attr(n.func.value, "_base_cls") \
-                        and n.func.attr != "__init__":
+            rebound = {t.id for x in pf.walk_no_nested(fn) if isinstance(x, (ast.Assign, ast.AugAssign))
+                       for tt in (x.targets if isinstance(x, ast.Assign) else [x.target])
+                       for t in ast.walk(tt) if isinstance(t, ast.Name) and isinstance(t.ctx, ast.Store)}
+            params = {a.arg for a in fn.args.args + fn.args.kwonlyargs}
+            for n in delegations:
+                if True:
                     conds = cfgm.conditions_at(n)
                     under_locked = any(pol and pf.is_self_attr(t, "_locked") for t, pol, k in conds)
                     inst = "%s: %s inside the locked region" % (where, pf.src(n.func))
                     if under_locked:
+                        continue
+                    if not locks:
+                        # a method of a locking class that delegates without ever taking the lock: harmless only when
+                        # the inputs are handed on unchanged (nothing can be selected twice)
+                        passed = list(n.args) + [k.value for k in n.keywords if k.arg is not None]
+                        resel = [a for a in passed if not (
+                            isinstance(a, ast.Constant)
+                            or (isinstance(a, ast.Name) and (a.id == "self" or (a.id in params and a.id not in rebound))))]
+                        if not resel:
+                            chk.ok("lock-pairing", "%s: %s hands its inputs on unchanged (no lock needed)"
+                                   % (where, pf.src(n.func)), nontrivial=False)
+                        else:
+                            sib = sorted(m2 for m2, f2 in ms.items() if m2 != mname
+                                         and any(_is_lock_assign(s2, True) for s2 in pf.walk_no_nested(f2)))
+                            chk.violation("lock-pairing", KR, where, pf.src(n)[:100], n.lineno,
+                                          "%s re-selects its input (%s) and delegates to the base class without "
+                                          "holding self._locked, although the class guards re-entry with that flag "
+                                          "(siblings that hold it across their delegation: %s): a base method that "
+                                          "calls self(...)/self.diag(...) re-enters this mixin unlocked and applies "
+                                          "the selection a second time" % (where, ", ".join(pf.src(a)[:40] for a in resel),
+                                                                           ", ".join(sib) or "none"),
+                                          instance=inst)
                         continue
                     cn = g.stmt_of_expr(n)
                     dom = any(g.dominates(g.node_of(s).id, cn.id) for s in locks)
@@ -1512,6 +1546,8 @@ def analyse(chk):
     chk.guard(rule_fixed, uni)
     chk.guard(rule_units, uni, prog)
     chk.guard(rule_param_write, uni, prog)
+    # external rules (one-line calls into other builders' modules go here, each wrapped in chk.guard)
+    # -- end external rules
     chk.floor("param-write", 30, "methods/functions of kernels.py and dft_kernel.py taking array arguments")
     chk.floor("sibling-primitives", 9, "classes defining k_and_deriv / _get_k0_dk0_eval")
     chk.floor("sibling-override", 2, "PartialRBF, PartialARBF")
@@ -1800,6 +1836,12 @@ def mutants(tree):
                "        self._locked = False\n        if eval_gradient:\n            dk = dk[:NX] + dk[NX:]",
                "        if not eval_gradient:\n            return k\n        self._locked = False\n        if eval_gradient:\n            dk = dk[:NX] + dk[NX:]",
                expect="lock-pairing"),
+        Mutant("diag no longer takes the lock around its delegation", KR,
+               "        self._locked = True\n        result = self._base_cls.diag(self, X[:, self.indexes])\n        self._locked = False\n        return result",
+               "        return self._base_cls.diag(self, X[:, self.indexes])", expect="lock-pairing"),
+        Mutant("SpinSym.k_and_deriv drops both lock statements", KR,
+               "            return self._base_cls.k_and_deriv(self, X, Y=Y)\n        self._locked = True\n        Nfeat = X.shape[1]",
+               "            return self._base_cls.k_and_deriv(self, X, Y=Y)\n        Nfeat = X.shape[1]", expect="lock-pairing"),
         Mutant("lock not taken before base call (Subset.k_and_deriv)", KR,
                "            return self._base_cls.k_and_deriv(self, X, Y=Y)\n        self._locked = True\n        if Y is not None:\n            Y = Y[:, self.indexes]",
                "            return self._base_cls.k_and_deriv(self, X, Y=Y)\n        if Y is not None:\n            Y = Y[:, self.indexes]",
